@@ -794,11 +794,15 @@ func (r *runningStep) runOnInput() {
 	case loopData, ok := <-r.executeInput:
 		if !ok {
 			r.logger.Debugf("aborted waiting for result in foreach")
+			r.closedEarly(StageIDOutputs, true)
 			return
 		}
 		r.processInput(loopData)
 	case <-r.ctx.Done():
+		// Closed while waiting for the items: report it like a close during enabling, so that the step
+		// completes (and shows as finished) on this path as well.
 		r.logger.Debugf("context done")
+		r.closedEarly(StageIDOutputs, true)
 		return
 	}
 }
